@@ -157,7 +157,10 @@ impl<'r, R: Read> Block<'r, R> {
         let mut count_reader = (&first[..]).chain(&mut self.reader);
         match util::read_usize(&mut count_reader).map_err(Error::into_details) {
             Ok(block_len) => {
-                self.message_count = block_len;
+                // Objects can be zero bytes wide (`null`), so the block size does not bound their
+                // number; keep the declared count below the allocation limit like the decoders do
+                // for arrays and maps
+                self.message_count = util::safe_len(block_len)?;
                 let block_bytes = util::read_usize(&mut self.reader)?;
                 self.fill_buf(block_bytes)?;
                 let mut marker = [0u8; 16];
